@@ -35,9 +35,15 @@ PROPS = {
                             "reached after w steps (window-shift lemma = C13), that vertex is retained, retained => masked => accepted by f.  The "
                             "constructor clause is proved for LocalBioFilter.__init__ (raises ValueError exactly when run > k or a motif is longer than "
                             "k; every accepted configuration is window-decidable) EXCEPT the recorded known finding max_homopolymer_runs == "
-                            "observed_length, which is excluded by an explicit precondition of the contract.  BOUNDED: threshold 1 and the "
-                            "whole-sequence verdict of the built-in filter (needs the C12 window lemma).",
-                demoted=["threshold 1 - bounded B2 (C03)", "whole-sequence check of LocalBioFilter on the strand - bounded B2 (C12 lemma)"],
+                            "observed_length, which is excluded by an explicit precondition of the contract.  The whole-sequence sentence for the built-in filter: "
+                            "by the chain every window of kmer(start) + strand is accepted, and by the window lemma proved under C12 (a sequence at least one "
+                            "window long all of whose windows are accepted by a window-decidable configuration is accepted) the prefixed strand - and the strand "
+                            "alone when it is at least one window long - passes the whole-sequence check; the two results are composed by hand (the chain is "
+                            "generic in the filter, the lemma is about LocalBioFilter's predicate), the bounded tier checks the composition.  BOUNDED: "
+                            "threshold 1, and the whole-sequence check of a strand shorter than one window.",
+                demoted=["threshold 1 - bounded B2 (C03)",
+                         "whole-sequence check of LocalBioFilter: composition of the chain with the C12 window lemma is not mechanised; strands shorter than one "
+                         "window - bounded B2"],
                 claim="Mixed: chain deductive for arbitrary filters / k / t in 2..4 / messages / tables (both modes); constructor clause deductive modulo "
                       "one known finding; the rest bounded.",
                 note="Trusted: numpy contracts of the closure; the verdict of a user filter is a function of the k-mer only.",
@@ -194,20 +200,32 @@ PROPS = {
                      "a user filter's verdict is assumed to be a function of the k-mer only (no hidden state).",
                 technique="postconditions with abstract filter predicate + bounded exhaustive order-2 masks"),
     "C12": dict(title="The local filter implements its window predicate", level="other", bounded=["C12"], design="8/C12",
-                proof=["dsw.biofilter.LocalBioFilter.valid#norun-nogc-none-whole", "dsw.biofilter.LocalBioFilter.valid#norun-nogc-none-last", "dsw.biofilter.LocalBioFilter.valid#norun-nogc-0-whole", "dsw.biofilter.LocalBioFilter.valid#norun-nogc-0-last", "dsw.biofilter.LocalBioFilter.valid#norun-nogc-1-whole", "dsw.biofilter.LocalBioFilter.valid#norun-nogc-1-last", "dsw.biofilter.LocalBioFilter.valid#norun-nogc-2-whole", "dsw.biofilter.LocalBioFilter.valid#norun-nogc-2-last", "dsw.biofilter.LocalBioFilter.valid#norun-gc-none-whole", "dsw.biofilter.LocalBioFilter.valid#norun-gc-none-last", "dsw.biofilter.LocalBioFilter.valid#norun-gc-0-whole", "dsw.biofilter.LocalBioFilter.valid#norun-gc-0-last", "dsw.biofilter.LocalBioFilter.valid#norun-gc-1-whole", "dsw.biofilter.LocalBioFilter.valid#norun-gc-1-last", "dsw.biofilter.LocalBioFilter.valid#norun-gc-2-whole", "dsw.biofilter.LocalBioFilter.valid#norun-gc-2-last", "dsw.biofilter.LocalBioFilter.valid#run-nogc-none-whole", "dsw.biofilter.LocalBioFilter.valid#run-nogc-none-last", "dsw.biofilter.LocalBioFilter.valid#run-nogc-0-whole", "dsw.biofilter.LocalBioFilter.valid#run-nogc-0-last", "dsw.biofilter.LocalBioFilter.valid#run-nogc-1-whole", "dsw.biofilter.LocalBioFilter.valid#run-nogc-1-last", "dsw.biofilter.LocalBioFilter.valid#run-nogc-2-whole", "dsw.biofilter.LocalBioFilter.valid#run-nogc-2-last", "dsw.biofilter.LocalBioFilter.valid#run-gc-none-whole", "dsw.biofilter.LocalBioFilter.valid#run-gc-none-last", "dsw.biofilter.LocalBioFilter.valid#run-gc-0-whole", "dsw.biofilter.LocalBioFilter.valid#run-gc-0-last", "dsw.biofilter.LocalBioFilter.valid#run-gc-1-whole", "dsw.biofilter.LocalBioFilter.valid#run-gc-1-last", "dsw.biofilter.LocalBioFilter.valid#run-gc-2-whole", "dsw.biofilter.LocalBioFilter.valid#run-gc-2-last", "harness.c12_rc_code_is_reverse_complement"],
+                proof=["dsw.biofilter.LocalBioFilter.valid#norun-nogc-none-whole", "dsw.biofilter.LocalBioFilter.valid#norun-nogc-none-last", "dsw.biofilter.LocalBioFilter.valid#norun-nogc-0-whole", "dsw.biofilter.LocalBioFilter.valid#norun-nogc-0-last", "dsw.biofilter.LocalBioFilter.valid#norun-nogc-1-whole", "dsw.biofilter.LocalBioFilter.valid#norun-nogc-1-last", "dsw.biofilter.LocalBioFilter.valid#norun-nogc-2-whole", "dsw.biofilter.LocalBioFilter.valid#norun-nogc-2-last", "dsw.biofilter.LocalBioFilter.valid#norun-gc-none-whole", "dsw.biofilter.LocalBioFilter.valid#norun-gc-none-last", "dsw.biofilter.LocalBioFilter.valid#norun-gc-0-whole", "dsw.biofilter.LocalBioFilter.valid#norun-gc-0-last", "dsw.biofilter.LocalBioFilter.valid#norun-gc-1-whole", "dsw.biofilter.LocalBioFilter.valid#norun-gc-1-last", "dsw.biofilter.LocalBioFilter.valid#norun-gc-2-whole", "dsw.biofilter.LocalBioFilter.valid#norun-gc-2-last", "dsw.biofilter.LocalBioFilter.valid#run-nogc-none-whole", "dsw.biofilter.LocalBioFilter.valid#run-nogc-none-last", "dsw.biofilter.LocalBioFilter.valid#run-nogc-0-whole", "dsw.biofilter.LocalBioFilter.valid#run-nogc-0-last", "dsw.biofilter.LocalBioFilter.valid#run-nogc-1-whole", "dsw.biofilter.LocalBioFilter.valid#run-nogc-1-last", "dsw.biofilter.LocalBioFilter.valid#run-nogc-2-whole", "dsw.biofilter.LocalBioFilter.valid#run-nogc-2-last", "dsw.biofilter.LocalBioFilter.valid#run-gc-none-whole", "dsw.biofilter.LocalBioFilter.valid#run-gc-none-last", "dsw.biofilter.LocalBioFilter.valid#run-gc-0-whole", "dsw.biofilter.LocalBioFilter.valid#run-gc-0-last", "dsw.biofilter.LocalBioFilter.valid#run-gc-1-whole", "dsw.biofilter.LocalBioFilter.valid#run-gc-1-last", "dsw.biofilter.LocalBioFilter.valid#run-gc-2-whole", "dsw.biofilter.LocalBioFilter.valid#run-gc-2-last", "harness.c12_rc_code_is_reverse_complement"] +
+                      ["harness.c12_%s_%s_%s_%s" % (d_, "run" if r_ else "norun", "gc" if g_ else "nogc", "none" if m_ is None else m_)
+                       for r_ in (False, True) for g_ in (False, True) for m_ in (None, 0, 1, 2) for d_ in ("window_of_valid", "valid_of_windows", "revcomp")],
                 explanation="PROVED on the real LocalBioFilter.valid, for strings over ANY alphabet and every configuration shape (run limit present/absent x "
                             "GC range present/absent x motif list None / 0..2 motifs (each motif an arbitrary string) x whole-sequence / last-window): the "
                             "verdict equals filter_ok = all characters A/C/G/T, no nucleotide repeated run+1 times, neither a motif nor the reverse "
                             "complement the code computes occurs (substring test = predicate occ), every window of the observed length has G+C within "
                             "[lo*k, hi*k] (shorter string: G+C <= hi*k and A+T <= (1-lo)*k), with the float products as the opaque terms the code itself "
                             "computes; the last-window verdict is the whole-sequence verdict of s[-k:]; no exception can escape.  A harness proves that "
-                            "the four replaces + reverse + upper compute the Watson-Crick reverse complement character by character.  BOUNDED (never "
-                            "counted as proved): the two metamorphic consequences (window conjunction for decidable configurations, reverse-"
-                            "complement invariance) - they need the inductive definition of substring occurrence, see DESIGN 8/C12.",
-                demoted=["window-conjunction lemma - bounded B2 (all strings <= 5/7 over ACGT x configuration grid)",
-                         "reverse-complement invariance - bounded B2", "motif lists longer than 2 motifs - same loop body, bounded"],
-                claim="Mixed: verdict clauses deductive; the two relational lemmas bounded.",
-                note="Trusted: str.replace/upper/[::-1]/count/`in` contracts (DESIGN 2); machine floats not reasoned about (opaque products shared by code and spec).",
+                            "the four replaces + reverse + upper compute the Watson-Crick reverse complement character by character.  WINDOW LEMMA PROVED over "
+                            "that predicate (32 client harnesses, one per configuration shape and direction; substring occurrence by its definition "
+                            "'some position matches', used through the explicit ghost steps occ_elim / occ_intro): every window of an accepted sequence "
+                            "is accepted, and a sequence at least one window long all of whose windows are accepted by a window-decidable configuration "
+                            "(run limit < k, motifs no longer than k) is accepted - so for such sequences the whole-sequence verdict is the conjunction of "
+                            "the window verdicts.  REVERSE-COMPLEMENT INVARIANCE PROVED (16 client harnesses): for an A/C/G/T string s, its reverse complement t and a "
+                            "configuration whose motifs are over A/C/G/T, filter_ok(s) implies filter_ok(t) (and, s being the reverse complement of t, "
+                            "conversely): occurrences are mirrored (run of c <-> run of comp(c), motif <-> its computed reverse complement), G+C and A+T "
+                            "counts of mirrored windows are equal (inductive lemmas cnt_split, cnt_revcomp).  OPEN KNOWN FINDING (excluded by the lemma's "
+                            "precondition, reported by the bounded tier): with a lower-case motif the verdict is NOT reverse-complement invariant.  BOUNDED: "
+                            "motif lists longer than two motifs (the contracts are per configuration shape).",
+                demoted=["motif lists longer than 2 motifs - same loop body, bounded B2",
+                         "reverse-complement invariance for motifs outside A/C/G/T - open known finding (lower-case letters), bounded B2 for the rest"],
+                claim="Deductive for all three sentences of the statement on configurations with at most two motifs (reverse-complement invariance: motifs over "
+                      "A/C/G/T); one open known finding; longer motif lists bounded - hence 'other'.",
+                note="Trusted: str.replace/upper/[::-1]/count contracts (DESIGN 2), `m in s` = 'some position of s matches m' (the definition the window lemma uses); "
+                     "machine floats not reasoned about (opaque products shared by code and spec).",
                 technique="postcondition of LocalBioFilter.valid against the window predicate + bounded exhaustive short strings"),
     "C13": dict(title="Vertex indices are k-mers, arcs are shift-append", level="proof", bounded=["C13"], design="8/C13",
                 proof=["dsw.graphized.obtain_latters", "dsw.graphized.obtain_formers", "dsw.graphized.get_complete_accessor",
